@@ -50,7 +50,7 @@ def run(ctx):
                             ctx.case((par, s, stop, hidden, ml), sample=dict(case, start=s, stop=sorted(stop), hidden=sorted(hidden), maxlevel=ml) if ctx.evals % 40009 == 0 else None)
                             G.check_mermaid(ctx, "C13", lib, nodes, idmap, names, par, ch, s, stop, hidden, ml, None, case)
         ctx.exhaustive.append("all ordered trees with %d nodes x every start x maxlevel None,0..4 x all %d stop sets x %d filter sets" % (n, len(allsets), len(fsets)))
-    nrand = (20000 if T else 960) // ctx.nshards + 1
+    nrand = (150000 if T else 960) // ctx.nshards + 1
     for r in range(nrand):
         rng = ctx.rng("rand", r)
         n = rng.randint(1, 14)
